@@ -160,53 +160,7 @@ def run(rep: Report, tier: str) -> None:  # noqa: C901
                             f"an alias for another dataset is analysed on the structure of the dataset aliased first, and the components of its real operands are dropped from the result"))
     rep.floor("R04.11 alias forms", n11, 2)
     # ---- R04.12 every Time_Period value of a result is rendered in the requested representation, also next to a NULL of the other side of an outer join ----
-    rep.rule("R04.12", "apply_time_period_representation evaluated on a result with two Time_Period columns: the UPDATE's row filter selects every row in which ANY of them is not "
-                       "null (left/full joins leave the columns of the missing side NULL)")
-    from sa import sqlconc as _sc12, sqlexpr as _se12
-    from sa.e6 import ExternalObj as _EO12
-    ft = P.func("vtlengine.duckdb_transpiler.io._time_handling.apply_time_period_representation")
-
-    class _Rel12:
-        description = [("Id_1", "BIGINT"), ("Tp_1", "VARCHAR"), ("Tp_2", "VARCHAR")]
-
-    class _Conn12:
-        def __init__(self) -> None:
-            self.q: List[str] = []
-
-        def execute(self, q: str, *a: Any) -> Any:
-            self.q.append(q)
-            return _Rel12()
-    tp = _CV11("vtlengine.DataTypes.TimePeriod")
-    dsm = _EO12({"components": {"Id_1": _EO12({"name": "Id_1", "data_type": _CV11("vtlengine.DataTypes.Integer")}), "Tp_1": _EO12({"name": "Tp_1", "data_type": tp}),
-                                "Tp_2": _EO12({"name": "Tp_2", "data_type": tp})}})
-    n12 = 0
-    rep_vals = _I11(P).eval(ast.parse("list(_REPR_MACRO)", mode="eval").body, {}, ft)
-    for rv in rep_vals:
-        conn = _Conn12()
-        try:
-            _I11(P, max_steps=4000).call(ft, {"conn": conn, "table_name": "DS_r", "output_datasets": {"DS_r": dsm}, "output_scalars": {}, "representation": rv})
-        except (_R11, _U11) as e:
-            raise AnalysisError(f"R04.12: apply_time_period_representation outside the evaluator's language: {e}")
-        ups = [q for q in conn.q if q.strip().upper().startswith("UPDATE")]
-        if len(ups) != 1 or " WHERE " not in ups[0].upper():
-            n12 += 1
-            rep.instance("R04.12", f"representation/{rv}", nontrivial=True, sample={"updates": ups[:2]})
-            continue  # no row filter: every row is converted
-        where = ups[0][ups[0].upper().index(" WHERE ") + 7:]
-        try:
-            pred = _se12.parse(where)
-        except _se12.ParseError as e:
-            raise AnalysisError(f"R04.12: the UPDATE's row filter is outside the SQL evaluator's language: {e} [{where[:80]}]")
-        n12 += 1
-        rep.instance("R04.12", f"representation/{rv}", nontrivial=True, sample={"update": " ".join(ups[0].split())[:200]})
-        for a_, b_ in (("2020-Q1", None), (None, "2022-S1"), ("2020-Q1", "2022-S1")):
-            env = {"Tp_1": a_, '"Tp_1"': a_, "Tp_2": b_, '"Tp_2"': b_}
-            if _sc12.ev(pred, env, {}) is not True:
-                rep.add(Finding("R04.12", f"R04.12/row-filter/{rv}", ft.module.rel, ft.node.lineno, ft.qualname,
-                                f"a result row with Tp_1 = {a_!r}, Tp_2 = {b_!r} (what a left / full join leaves for a key missing on one side) is not selected by `WHERE {' '.join(where.split())[:90]}`: "
-                                f"its Time_Period value stays in the internal form (2020-Q1) instead of the requested representation"))
-                break
-    rep.floor("R04.12 representations", n12, 2)
+    representation_row_filter(P, rep, "R04.12")
     rep.assumptions = ["DuckDB join semantics for the emitted ON clause", "SQLBuilder.join writes `<keyword> JOIN` from its join_type argument (read from the source)"]
 
 
@@ -419,3 +373,57 @@ def strip_prefixes_model(P: Program, rep: Report, rule: str) -> None:
         if bad:
             rep.add(Finding(rule, f"{rule}/strip/{label}", fsp.module.rel, fsp.node.lineno, fsp.qualname,
                             f"a join result with the components {[c_[0] for c_ in comps]} {bad}: for a cross_join (identifiers are not keys) the second component and its values silently disappear"))
+
+
+def representation_row_filter(P: Program, rep: Report, rule: str) -> None:
+    """apply_time_period_representation evaluated on a result with two Time_Period columns: the UPDATE's row filter selects every row in which
+    ANY of them is not null.  Shared with C14 (the file written to the output folder is produced after this UPDATE: a skipped row keeps the
+    internal form in the file) and C21."""
+    from sa.e6 import ClassVal as _CV11, Interp as _I11, Raised as _R11, Unmodelled as _U11
+    rep.rule(rule, "apply_time_period_representation evaluated on a result with two Time_Period columns: the UPDATE's row filter selects every row in which ANY of them is not "
+                       "null (left/full joins leave the columns of the missing side NULL)")
+    from sa import sqlconc as _sc12, sqlexpr as _se12
+    from sa.e6 import ExternalObj as _EO12
+    ft = P.func("vtlengine.duckdb_transpiler.io._time_handling.apply_time_period_representation")
+
+    class _Rel12:
+        description = [("Id_1", "BIGINT"), ("Tp_1", "VARCHAR"), ("Tp_2", "VARCHAR")]
+
+    class _Conn12:
+        def __init__(self) -> None:
+            self.q: List[str] = []
+
+        def execute(self, q: str, *a: Any) -> Any:
+            self.q.append(q)
+            return _Rel12()
+    tp = _CV11("vtlengine.DataTypes.TimePeriod")
+    dsm = _EO12({"components": {"Id_1": _EO12({"name": "Id_1", "data_type": _CV11("vtlengine.DataTypes.Integer")}), "Tp_1": _EO12({"name": "Tp_1", "data_type": tp}),
+                                "Tp_2": _EO12({"name": "Tp_2", "data_type": tp})}})
+    n12 = 0
+    rep_vals = _I11(P).eval(ast.parse("list(_REPR_MACRO)", mode="eval").body, {}, ft)
+    for rv in rep_vals:
+        conn = _Conn12()
+        try:
+            _I11(P, max_steps=4000).call(ft, {"conn": conn, "table_name": "DS_r", "output_datasets": {"DS_r": dsm}, "output_scalars": {}, "representation": rv})
+        except (_R11, _U11) as e:
+            raise AnalysisError(f"{rule}: apply_time_period_representation outside the evaluator's language: {e}")
+        ups = [q for q in conn.q if q.strip().upper().startswith("UPDATE")]
+        if len(ups) != 1 or " WHERE " not in ups[0].upper():
+            n12 += 1
+            rep.instance(rule, f"representation/{rv}", nontrivial=True, sample={"updates": ups[:2]})
+            continue  # no row filter: every row is converted
+        where = ups[0][ups[0].upper().index(" WHERE ") + 7:]
+        try:
+            pred = _se12.parse(where)
+        except _se12.ParseError as e:
+            raise AnalysisError(f"{rule}: the UPDATE's row filter is outside the SQL evaluator's language: {e} [{where[:80]}]")
+        n12 += 1
+        rep.instance(rule, f"representation/{rv}", nontrivial=True, sample={"update": " ".join(ups[0].split())[:200]})
+        for a_, b_ in (("2020-Q1", None), (None, "2022-S1"), ("2020-Q1", "2022-S1")):
+            env = {"Tp_1": a_, '"Tp_1"': a_, "Tp_2": b_, '"Tp_2"': b_}
+            if _sc12.ev(pred, env, {}) is not True:
+                rep.add(Finding(rule, f"{rule}/row-filter/{rv}", ft.module.rel, ft.node.lineno, ft.qualname,
+                                f"a result row with Tp_1 = {a_!r}, Tp_2 = {b_!r} (what a left / full join leaves for a key missing on one side) is not selected by `WHERE {' '.join(where.split())[:90]}`: "
+                                f"its Time_Period value stays in the internal form (2020-Q1) instead of the requested representation"))
+                break
+    rep.floor(f"{rule} representations", n12, 2)
